@@ -809,10 +809,72 @@ def genUnary (id : String) : Gen Case := do
   | [a, b, c] => pure (mkMeta id stratum [← rend a, plain b, fullv a, ← rend c])
   | _ => pure (mkMeta id stratum (← vs.mapM rend))
 
+/-! ## floats: an implementation-only metamorphic stream (the Lean model is integer-only).
+Arithmetic chains over non-integer and extreme literals, written bare, with the parentheses the documented
+precedence/associativity implies, with let-bound literals and with redundant parentheses around the literals:
+all spellings must print the same float text (harness op `agree`; NaN prints as NaN). -/
+
+inductive FE where
+  | lit (i : Nat)
+  | bin (op : String) (l r : FE)
+  deriving Inhabited
+
+def floatLits : List String :=
+  ["0.1", "0.2", "0.3", "1e308", "1e-308", "1e200", "0", "-0.0", "3", "7", "0.7", "1e16", "2.5", "1e-200"]
+
+def feLevel (op : String) : Nat := if op == "+" || op == "-" then Expected.lvAdd else if op == "^" then Expected.lvPow else Expected.lvMul
+
+/-- `mode` 0 = bare (minimal parentheses), 1 = every sub-term parenthesised; `leaf` prints a literal -/
+def FE.src (leaf : Nat → String) (full : Bool) : FE → Nat → String
+  | .lit i, _ => if full then "(" ++ leaf i ++ ")" else leaf i
+  | .bin op l r, ctx =>
+    let lv := feLevel op
+    let body := if op == "^" then l.src leaf full (lv + 1) ++ " ^ " ++ r.src leaf full lv
+                else l.src leaf full lv ++ " " ++ op ++ " " ++ r.src leaf full (lv + 1)
+    if full || lv < ctx then "(" ++ body ++ ")" else body
+
+def FE.leftChain (ops : List String) : Nat → FE
+  | 0 => .lit 0
+  | n + 1 => .bin (ops.getD n "*") (FE.leftChain ops n) (.lit (n + 1))
+
+def genFE : Nat → Nat → Nat → Gen FE
+  | 0, lo, _ => pure (.lit lo)
+  | fuel + 1, lo, n => do
+    -- leaves lo .. lo+n : split at a random point
+    if n == 0 then pure (.lit lo)
+    else do
+      let k ← rand n
+      let l ← genFE fuel lo k
+      let r ← genFE fuel (lo + k + 1) (n - k - 1)
+      pure (.bin (← pick ["+", "-", "*", "/", "%", "^", "*", "-"]) l r)
+
+def genFloatAsts : Gen (FE × List String) := do
+  let n := (← rand 2) + 3
+  -- mostly literals whose products/differences are inexact or overflow; the others less often
+  let hard := ["0.1", "0.2", "0.3", "0.7", "1e308", "1e200", "1e-308", "1e-200", "1e16", "3", "7", "0.1"]
+  let lits ← genList n (do if ← chance 4 5 then pick hard else pick floatLits)
+  let e ← if ← chance 3 5 then do
+      -- a left-associated chain, mostly of one operator (`x * c1 * c2`, `x - c1 - c2`, `x / c1 / c2` …)
+      let op ← pick ["*", "*", "*", "-", "-", "-", "+", "/", "%"]
+      let ops ← genList (n - 1) (do if ← chance 3 4 then pure op else pick ["+", "-", "*", "/", "%", "^"])
+      pure (FE.leftChain ops (n - 1))
+    else genFE 8 0 (n - 1)
+  pure (e, lits)
+
+def genFloat (id : String) : Gen Case := do
+  let (e, lits) ← genFloatAsts
+  let leaf (i : Nat) : String := lits.getD i "1"
+  let name (i : Nat) : String := s!"a{i}"
+  let lets := String.join ((List.range lits.length).map fun i => s!"let {name i} = {leaf i}; ")
+  let bare := e.src leaf false 0
+  pure { id := id, cls := "good", kind := "agree", stratum := "float", model := "agree", spec := "agree",
+         payload := [bare, e.src leaf true 0, lets ++ e.src name false 0, e.src (fun i => "(" ++ leaf i ++ ")") false 0,
+                     lets ++ e.src name true 0] }
+
 def kinds : List String :=
   ["let", "let", "sugar", "dot", "dot", "paren", "paren", "parenfn", "trivia", "subst", "subst", "short", "short",
    "scope", "gap", "nested", "nested", "nested", "alias", "alias", "alias", "agree", "logic", "logic", "logic", "sugar",
-   "unary", "unary", "unary"]
+   "unary", "unary", "unary", "float", "float", "float", "float", "float"]
 
 /-- is the rewrite kind applicable somewhere in `t`? -/
 def applicable (kind : String) (t : Ast) : Bool :=
@@ -850,6 +912,7 @@ def genCase (idx : Nat) (thorough : Bool) : Gen Case := do
     | _ => fallback
   | "logic" => genLogicLit id
   | "unary" => genUnary id
+  | "float" => genFloat id
   | "dot" =>
     let fresh ← pick ["v1", "arg", "it"]
     match ← applyAt t [dotSame, dotExplicit, dotFresh fresh] with
